@@ -40,6 +40,8 @@ type Trial struct {
 	// Hold: forced class - how many of goroutine 0's last entries are logged while the flusher
 	// is parked between its two polls (0 means 1)
 	Hold int `json:"hold,omitempty"`
+	// JSON: entries are formatted as JSON lines (rogger.SetFormat(rogger.Json)) instead of text
+	JSON bool `json:"json_format,omitempty"`
 }
 
 func (t Trial) hold() int {
@@ -104,6 +106,7 @@ func installHook() {
 func draw(rt *rapid.T) Trial {
 	t := Trial{Class: rapid.SampledFrom([]string{"free", "free", "free", "free", "free", "free", "free", "free", "free", "forced", "forced", "forced", "forced", "forced", "forced", "forced", "forced", "forced", "forced", "forced", "forced", "forced", "forced", "forced", "inflight", "inflight", "inflight", "overflow"}).Draw(rt, "class")}
 	t.Goroutines = rapid.IntRange(1, 8).Draw(rt, "goroutines")
+	t.JSON = rapid.IntRange(0, 3).Draw(rt, "jsonFormat") == 0
 	if t.Class == "overflow" {
 		t.Goroutines = 1
 		t.Extra = rapid.IntRange(1, 300).Draw(rt, "extra")
@@ -142,6 +145,10 @@ func run(t Trial) *stat.Failure {
 	l2 := rogger.GetLogger(fmt.Sprintf("verifB%d", no))
 	l1.SetWriter(w1)
 	l2.SetWriter(w2)
+	if t.JSON {
+		rogger.SetFormat(rogger.Json)
+		defer rogger.SetFormat(rogger.Text)
+	}
 	defer func() {
 		// the flusher exits after a flush; restart it for the next trial
 		rogger.VerifStopFlusher()
